@@ -8,7 +8,8 @@ import json
 import random
 
 import problems
-from common import NCPU, Machinery, Report, Scratch, nucs_env, read_ndjson, run_tlc, run_workers, validate_shards
+from common import (NCPU, Machinery, Report, Scratch, nucs_env, read_ndjson, run_tlc, run_workers, run_workers_resilient,
+                    validate_shards, warm_jit)
 
 SHIFTABLE = {"alldifferent", "lexicographic_leq", "max_eq", "max_leq", "min_eq", "min_geq", "affine_eq", "affine_geq",
              "affine_leq", "exactly_eq", "relation", "gcc", "dummy"}
@@ -41,7 +42,8 @@ def rewrites_for(P, r, small):
 def c13(tier, seed, replay):
     rep = Report("C13", tier, "model_checking")
     r = random.Random(seed * 4241 + 9)
-    env = nucs_env(jit=False)
+    warm_jit()
+    env = nucs_env(jit=True)
     with Scratch("rw") as tmp:
         # ---- inputs: random problems + the shipped models through their real constructors
         mods = QUICK_MODELS if tier == "quick" else THOROUGH_MODELS
@@ -99,16 +101,18 @@ def c13(tier, seed, replay):
         # ---- stage 2: the real solver on both models
         items = []
         for x in inputs:
-            cfgQ = {"ca": r.choice([0, 0, 1]) if x["src"] == "random" else 0, "vh": r.choice([0, 1, 2]), "dh": r.choice([0, 1, 2, 3])}
+            # the shipped models keep the default strategy (another one may need an astronomic search)
+            cfgQ = ({"ca": r.choice([0, 0, 1]), "vh": r.choice([0, 1, 2]), "dh": r.choice([0, 1, 2, 3])}
+                    if x["src"] == "random" else {"ca": 0, "vh": 0, "dh": 0})
             varQ = x["perm"][x["var"]] if x["kind"] == "permv" else x["var"]
             items.append({"rid": x["rid"], "runs": [
                 {"P": x["P"], "cfg": {}, "mode": x["mode"], "var": x["var"]},
                 {"P": Q[x["rid"]], "cfg": cfgQ, "mode": x["mode"], "var": varQ}]})
         items.sort(key=lambda it: -len(json.dumps(it["runs"][0]["P"])))
-        outs = run_workers("rec_rewrites.py", [{"items": items[k::NCPU], "timeout": 120.0} for k in range(NCPU) if items[k::NCPU]],
-                           env, tmp, timeout=3000)
+        outs, killed = run_workers_resilient("rec_rewrites.py", [{"items": items[k::NCPU], "timeout": 60.0} for k in range(NCPU) if items[k::NCPU]],
+                                             env, tmp, item_timeout=45.0 if tier == "quick" else 240.0)
         byrid = {x["rid"]: x for x in inputs}
-        recs, skipped = [], 0
+        recs, skipped = [], len(killed)
         for o in read_ndjson(outs):
             x = byrid[o["rid"]]
             a, b = o["res"]
@@ -150,6 +154,6 @@ def c13(tier, seed, replay):
                  "force when the boxes have <= 3000 points); the real solver runs both models (the rewritten one under "
                  "a random configuration); TLC judges bag equality up to the renaming / equal optimum. Non-trivial = "
                  "the original model has a solution.")
-    rep.assumptions += ["runs that exceed the watchdog (120 s, interpreted) or 6000 solutions are skipped, not judged",
-                        "the quick tier runs the interpreted engine"]
+    rep.assumptions += ["runs that exceed the watchdog (120 s) or 6000 solutions are skipped, not judged",
+                        "all runs use the compiled engine (numba cache keyed by the hash of /repo/nucs)"]
     return rep.finish()
